@@ -23,11 +23,46 @@ type reqRuntime struct {
 	appDone   atomic.Bool  // app finished with the response (read to the end / closed / failed)
 	release   chan struct{}
 	relOnce   sync.Once
+	gate      chan struct{} // closed by the peer script (action start-req) for gated requests
+	gateOnce  sync.Once
 	errStr    atomic.Value // string
 	gotHeader atomic.Bool
 }
 
 func (rt *reqRuntime) releaseRead() { rt.relOnce.Do(func() { close(rt.release) }) }
+func (rt *reqRuntime) openGate() {
+	rt.gateOnce.Do(func() {
+		if rt.gate != nil {
+			close(rt.gate)
+		}
+	})
+}
+
+// holdWriter lets the peer put several frames into ONE write on the connection.
+type holdWriter struct {
+	w    io.Writer
+	hold bool
+	buf  []byte
+}
+
+func (h *holdWriter) Write(p []byte) (int, error) {
+	if h.hold {
+		h.buf = append(h.buf, p...)
+		return len(p), nil
+	}
+	return h.w.Write(p)
+}
+
+func (h *holdWriter) release() error {
+	h.hold = false
+	b := h.buf
+	h.buf = nil
+	if len(b) == 0 {
+		return nil
+	}
+	_, err := h.w.Write(b)
+	return err
+}
 
 type pstream struct {
 	id       uint32
@@ -40,6 +75,7 @@ type pstream struct {
 	ignored  bool // opened after our GOAWAY
 	recv     int  // upload DATA payload bytes received
 
+	padOnlySent int
 	respStarted bool
 	respSent    int
 	respDone    bool
@@ -60,10 +96,12 @@ type stallInfo struct {
 }
 
 type peer struct {
-	sc   *Scenario
-	conn *pipeConn
-	fr   *xh2.Framer
-	rts  []*reqRuntime
+	sc     *Scenario
+	conn   *pipeConn
+	hw     *holdWriter
+	paused atomic.Bool // the script stopped the reader (client writes back up)
+	fr     *xh2.Framer
+	rts    []*reqRuntime
 
 	mu        sync.Mutex // guards everything below, the log and all writes
 	log       []Event
@@ -117,7 +155,8 @@ func newPeer(sc *Scenario, conn *pipeConn, rts []*reqRuntime) *peer {
 		streams: map[uint32]*pstream{}, pingWait: map[uint64]chan struct{}{}, pingDone: map[uint64]bool{},
 		kick: make(chan struct{}, 1), stop: make(chan struct{}), readerDone: make(chan struct{}),
 		writerDone: make(chan struct{}), maxLog: 20000, start: time.Now()}
-	p.fr = xh2.NewFramer(conn, conn)
+	p.hw = &holdWriter{w: conn}
+	p.fr = xh2.NewFramer(p.hw, conn)
 	p.fr.AllowIllegalReads = true
 	p.fr.SetMaxReadFrameSize(1<<24 - 1)
 	p.hdec = hpack.NewDecoder(4096, func(f hpack.HeaderField) { p.hfields = append(p.hfields, f) })
@@ -158,6 +197,7 @@ func (p *peer) logEvent(e Event) {
 func (p *peer) releaseAll() {
 	for _, rt := range p.rts {
 		rt.releaseRead()
+		rt.openGate()
 	}
 }
 
@@ -178,6 +218,13 @@ func (p *peer) readLoop() {
 		if delay > 0 && budget > 0 {
 			time.Sleep(delay)
 			budget -= delay
+		}
+		for p.paused.Load() {
+			select {
+			case <-p.stop:
+				return
+			case <-time.After(200 * time.Microsecond):
+			}
 		}
 		f, err := p.fr.ReadFrame()
 		if err != nil {
@@ -399,6 +446,14 @@ func (p *peer) step(tick bool) {
 				}
 			}
 			p.sendWU(sid, a.Inc)
+		case "pause-read":
+			p.paused.Store(true)
+		case "resume-read":
+			p.paused.Store(false)
+		case "start-req":
+			if int(a.Inc) < len(p.rts) {
+				p.rts[a.Inc].openGate()
+			}
 		case "goaway":
 			if !p.goAwaySent {
 				p.goAwaySent = true
@@ -476,8 +531,18 @@ func (p *peer) respond(st *pstream, tick bool) bool {
 		if end {
 			fl |= flagEndStream
 		}
+		batch := sp.AckBatch != nil && end
+		if batch { // SETTINGS + the complete response in one write
+			p.hw.hold = true
+			p.sendSettings(sp.AckBatch)
+		}
 		p.wrote(p.fr.WriteHeaders(xh2.HeadersFrameParam{StreamID: st.id, BlockFragment: blk, EndStream: end, EndHeaders: true}),
 			Event{Type: ftHeaders, Flags: fl, Sid: st.id, Len: uint32(len(blk))})
+		if batch {
+			if err := p.hw.release(); err != nil && p.writeErr == nil {
+				p.writeErr = err
+			}
+		}
 		if end {
 			st.respDone = true
 			st.rt.releaseRead()
@@ -487,6 +552,21 @@ func (p *peer) respond(st *pstream, tick bool) bool {
 	bs := p.book.streams[st.id]
 	if bs == nil {
 		return false
+	}
+	for st.padOnlySent < sp.PadOnly {
+		// padding only: PADDED flag, Pad Length octet + padding, no data byte
+		pad := sp.RespPad
+		if pad <= 0 {
+			pad = 255
+		}
+		need := int64(1 + pad)
+		if need > int64(p.cliMaxFrame) || need > bs.recvWin || need > p.book.cConnWin {
+			p.blocked(st, bs, tick)
+			return false
+		}
+		p.wrote(p.fr.WriteDataPadded(st.id, false, nil, make([]byte, pad)),
+			Event{Type: ftData, Flags: flagPadded, Sid: st.id, Len: uint32(need)})
+		st.padOnlySent++
 	}
 	for frames := 0; frames < 4; frames++ {
 		if sp.RstDownload > 0 && st.respSent >= sp.RstDownload {
